@@ -1,13 +1,232 @@
 import XdocModel.Checker
+import XdocModel.Lemmas.Checker
+import XdocModel.Proofs.C06
+/-!
+# C05 — Output matching equals the documented relation for every flag combination
+
+Property theorems only. `Flags` fields: `ellipsis normWs ignWs normRepr noBlank`
+(= ELLIPSIS, NORMALIZE_WHITESPACE, IGNORE_WHITESPACE, NORMALIZE_REPR, DONT_ACCEPT_BLANKLINE).
+-/
 namespace Xdoc.C05
 open Xdoc Py Re
 
-/-- identical texts always match -/
+/-- ★ identical texts always match -/
 theorem checkOutput_refl (f : Flags) (s : Str) : checkOutput f s s = true := by
   unfold checkOutput; split <;> simp
 
-/-- an empty want matches everything -/
+/-- ★ an empty want matches everything (code without a want is never compared) -/
 theorem checkOutput_empty_want (f : Flags) (g : Str) : checkOutput f g [] = true := by
   simp [checkOutput]
+
+/-- what `check_output` does in general: empty want, identical, or `_check_match` on the
+    normalised pair (the documented relation, step by step: `normalize`) -/
+theorem checkOutput_unfold (f : Flags) (g w : Str) :
+    checkOutput f g w = true ↔
+      w = [] ∨ g = w ∨ checkMatch f (normalize f g w).1 (normalize f g w).2 = true := by
+  unfold checkOutput
+  by_cases h1 : w = []
+  · simp [h1]
+  · by_cases h2 : g = w
+    · simp [h2]
+    · simp [h1, h2]
+
+/-- all leniencies off -/
+def strictFlags : Flags :=
+  { ellipsis := false, normWs := false, ignWs := false, normRepr := false, noBlank := true }
+
+/-- ★ with every leniency switched off the comparison is exact up to the always-on removals
+    (ANSI codes, string-prefix letters, per-line trailing blanks, trailing whitespace, lines
+    erased by a bare carriage return): equality of `baseNorm false`. -/
+theorem strict_is_base_equality (g w : Str) :
+    checkOutput strictFlags g w = true ↔ w = [] ∨ g = w ∨ baseNorm false g = baseNorm false w := by
+  rw [checkOutput_unfold]
+  simp [normalize, norm1, wsNorm, strictFlags, checkMatch]
+
+
+/-- ★ `content_preserved` (no false pass): when `...` cannot act as a wildcard (ELLIPSIS off, or
+    the normalised want has no `...`), a match implies that got and want have the same
+    non-whitespace characters after the documented removals — up to one pair of identical
+    surrounding quotes on either side, and that only under NORMALIZE_REPR. -/
+theorem content_preserved (f : Flags) (g w : Str)
+    (hW : f.ellipsis = false ∨ contains dots (norm1 f true w) = false)
+    (h : checkOutput f g w = true) :
+    w = [] ∨ g = w ∨
+      ∃ a b, UnqRel f.normRepr (deleteWs (baseNorm false g)) a ∧
+             UnqRel f.normRepr (deleteWs (baseNorm (!f.noBlank) w)) b ∧ a = b := by
+  rcases (checkOutput_unfold f g w).mp h with h | h | h
+  · exact Or.inl h
+  · exact Or.inr (Or.inl h)
+  · refine Or.inr (Or.inr ?_)
+    -- the two normalised texts are related to the per-string normal forms by `UnqRel`
+    have key : ∃ g' w', UnqRel f.normRepr (norm1 f false g) g' ∧ UnqRel f.normRepr (norm1 f true w) w' ∧
+        (normalize f g w) = (g', w') := by
+      cases hnr : f.normRepr
+      · exact ⟨norm1 f false g, norm1 f true w, .same _, .same _, by simp [normalize, hnr]⟩
+      · exact ⟨normReprStep f (norm1 f false g) (norm1 f true w),
+          normReprStep f (norm1 f true w) (normReprStep f (norm1 f false g) (norm1 f true w)),
+          normReprStep_rel f _ _, normReprStep_rel f _ _, by simp [normalize, hnr]⟩
+    obtain ⟨g', w', hg, hw, he⟩ := key
+    rw [he] at h
+    simp only at h
+    -- no wildcard: the final `_check_match` is equality
+    have heq : g' = w' := by
+      rcases hW with hE | hD
+      · exact (C06.checkMatch_ellipsis_off f g' w' hE).mp h
+      · have hd' : contains dots w' = false := by
+          cases hc : contains dots w' with
+          | false => rfl
+          | true => rw [contains_of_infix hw.infix hc] at hD; cases hD
+        unfold checkMatch at h
+        simp only [Bool.or_eq_true, beq_iff_eq, Bool.and_eq_true] at h
+        rcases h with h | ⟨_, h⟩
+        · exact h
+        · exact (C06.ellipsis_no_dots g' w' hd').mp h
+    refine ⟨deleteWs g', deleteWs w', ?_, ?_, by rw [heq]⟩
+    · have := hg.deleteWs
+      simpa [norm1, deleteWs_wsNorm] using this
+    · have := hw.deleteWs
+      simpa [norm1, deleteWs_wsNorm] using this
+
+/-! ## monotonicity: switching a leniency on never turns a match into a mismatch
+
+One theorem per switch, for all got/want and all settings of the other switches that satisfy the
+stated guard. The unguarded sentence is **false** of the unchanged code: see the witnesses below. -/
+
+/-- with NORMALIZE_REPR off, `normalize` is the two per-string normal forms -/
+theorem checkOutput_nr_off (f : Flags) (hnr : f.normRepr = false) (g w : Str) :
+    checkOutput f g w = true ↔
+      w = [] ∨ g = w ∨ checkMatch f (norm1 f false g) (norm1 f true w) = true := by
+  rw [checkOutput_unfold]; simp [normalize, hnr]
+
+/-- ★ ELLIPSIS (guard: NORMALIZE_REPR off) -/
+theorem mono_ellipsis (f : Flags) (g w : Str) (hnr : f.normRepr = false)
+    (h : checkOutput { f with ellipsis := false } g w = true) :
+    checkOutput { f with ellipsis := true } g w = true := by
+  obtain ⟨e, nw, iw, nr, nb, d⟩ := f
+  simp only at hnr; subst hnr
+  rw [checkOutput_nr_off _ rfl] at h ⊢
+  rcases h with h | h | h
+  · exact Or.inl h
+  · exact Or.inr (Or.inl h)
+  · refine Or.inr (Or.inr ?_)
+    have e : ∀ b s, norm1 { ellipsis := true, normWs := nw, ignWs := iw, normRepr := false, noBlank := nb, ignDetail := d } b s
+        = norm1 { ellipsis := false, normWs := nw, ignWs := iw, normRepr := false, noBlank := nb, ignDetail := d } b s :=
+      fun _ _ => rfl
+    simp only [checkMatch, Bool.false_and, Bool.or_false, beq_iff_eq] at h
+    simp only [checkMatch, Bool.or_eq_true, beq_iff_eq, e]
+    exact Or.inl h
+
+/-- ◐ NORMALIZE_WHITESPACE (guard: NORMALIZE_REPR off and ELLIPSIS off).
+    Missing for the full statement: ELLIPSIS on (needs "collapse respects the piece
+    decomposition"), and NORMALIZE_REPR on where the sentence is false (K-C05-a). -/
+theorem mono_normalize_whitespace_partial (f : Flags) (g w : Str) (hnr : f.normRepr = false)
+    (he : f.ellipsis = false)
+    (h : checkOutput { f with normWs := false } g w = true) :
+    checkOutput { f with normWs := true } g w = true := by
+  obtain ⟨e, nw, iw, nr, nb, d⟩ := f
+  simp only at hnr he; subst hnr he
+  rw [checkOutput_nr_off _ rfl] at h ⊢
+  rcases h with h | h | h
+  · exact Or.inl h
+  · exact Or.inr (Or.inl h)
+  · refine Or.inr (Or.inr ?_)
+    simp only [checkMatch, norm1, wsNorm, Bool.false_and, Bool.or_false, beq_iff_eq,
+      Bool.false_or, Bool.true_or, ↓reduceIte] at h ⊢
+    cases iw
+    · simp only [Bool.false_eq_true, ↓reduceIte] at h ⊢; rw [h]
+    · simp only [↓reduceIte] at h ⊢; exact h
+
+/-- ◐ IGNORE_WHITESPACE (guard: NORMALIZE_REPR off and ELLIPSIS off).
+    Missing: ELLIPSIS on, where the sentence is false in class K-C05-d. -/
+theorem mono_ignore_whitespace_partial (f : Flags) (g w : Str) (hnr : f.normRepr = false)
+    (he : f.ellipsis = false)
+    (h : checkOutput { f with ignWs := false } g w = true) :
+    checkOutput { f with ignWs := true } g w = true := by
+  obtain ⟨e, nw, iw, nr, nb, d⟩ := f
+  simp only at hnr he; subst hnr he
+  rw [checkOutput_nr_off _ rfl] at h ⊢
+  rcases h with h | h | h
+  · exact Or.inl h
+  · exact Or.inr (Or.inl h)
+  · refine Or.inr (Or.inr ?_)
+    simp only [checkMatch, norm1, wsNorm, Bool.false_and, Bool.or_false, beq_iff_eq,
+      Bool.or_true, Bool.or_false, ↓reduceIte, Bool.false_eq_true] at h ⊢
+    cases nw
+    · simp only [Bool.false_eq_true, ↓reduceIte] at h
+      rw [deleteWs_collapse, deleteWs_collapse, h]
+    · simp only [↓reduceIte] at h; rw [h]
+
+/-- ◐ NORMALIZE_REPR (guard: ELLIPSIS off). With ELLIPSIS on the second quote-stripping call
+    uses got as the pattern; not proved. -/
+theorem mono_normalize_repr_partial (f : Flags) (g w : Str) (he : f.ellipsis = false)
+    (h : checkOutput { f with normRepr := false } g w = true) :
+    checkOutput { f with normRepr := true } g w = true := by
+  obtain ⟨e, nw, iw, nr, nb, d⟩ := f
+  simp only at he; subst he
+  rw [checkOutput_nr_off _ rfl] at h
+  rw [checkOutput_unfold]
+  rcases h with h | h | h
+  · exact Or.inl h
+  · exact Or.inr (Or.inl h)
+  · refine Or.inr (Or.inr ?_)
+    simp only [checkMatch, Bool.false_and, Bool.or_false, beq_iff_eq] at h
+    have h' : norm1 { ellipsis := false, normWs := nw, ignWs := iw, normRepr := true, noBlank := nb, ignDetail := d } false g
+        = norm1 { ellipsis := false, normWs := nw, ignWs := iw, normRepr := true, noBlank := nb, ignDetail := d } true w := h
+    simp [normalize, normReprStep, checkMatch, h']
+
+/-- the unguarded monotonicity sentence of the property -/
+def mono_full_statement : Prop :=
+  ∀ (f : Flags) (g w : Str),
+    (checkOutput { f with ellipsis := false } g w = true → checkOutput { f with ellipsis := true } g w = true) ∧
+    (checkOutput { f with normWs := false } g w = true → checkOutput { f with normWs := true } g w = true) ∧
+    (checkOutput { f with ignWs := false } g w = true → checkOutput { f with ignWs := true } g w = true) ∧
+    (checkOutput { f with normRepr := false } g w = true → checkOutput { f with normRepr := true } g w = true) ∧
+    (checkOutput { f with noBlank := true } g w = true → checkOutput { f with noBlank := false } g w = true)
+
+/-! ### kernel-checked witnesses: the four corner classes where it fails (known findings) -/
+
+/-- K-C05-a : got `" a"`, want `"' a'"`, NORMALIZE_REPR on: NORMALIZE_WHITESPACE off matches, on does not -/
+theorem witness_K_C05_a :
+    checkOutput { ellipsis := false, normWs := false, ignWs := false, normRepr := true, noBlank := false }
+      " a".toList "' a'".toList = true ∧
+    checkOutput { ellipsis := false, normWs := true, ignWs := false, normRepr := true, noBlank := false }
+      " a".toList "' a'".toList = false := by decide +kernel
+
+/-- K-C05-b : got `"."`, want `"<BLANKLINE>\r."`: strict mode matches, accepting mode does not -/
+theorem witness_K_C05_b :
+    checkOutput { ellipsis := false, normWs := false, ignWs := false, normRepr := false, noBlank := true }
+      ".".toList "<BLANKLINE>\r.".toList = true ∧
+    checkOutput { ellipsis := false, normWs := false, ignWs := false, normRepr := false, noBlank := false }
+      ".".toList "<BLANKLINE>\r.".toList = false := by decide +kernel
+
+/-- K-C05-c : got `"\n\n..."`, want `"'...'"`, IGNORE_WHITESPACE + NORMALIZE_REPR: ELLIPSIS off matches, on does not -/
+theorem witness_K_C05_c :
+    checkOutput { ellipsis := false, normWs := false, ignWs := true, normRepr := true, noBlank := false }
+      "\n\n...".toList "'...'".toList = true ∧
+    checkOutput { ellipsis := true, normWs := false, ignWs := true, normRepr := true, noBlank := false }
+      "\n\n...".toList "'...'".toList = false := by decide +kernel
+
+/-- K-C05-d : got `"\t...a"`, want `".\t..."`, ELLIPSIS + NORMALIZE_WHITESPACE matches, adding IGNORE_WHITESPACE does not -/
+theorem witness_K_C05_d :
+    checkOutput { ellipsis := true, normWs := true, ignWs := false, normRepr := false, noBlank := false }
+      "\t...a".toList ".\t...".toList = true ∧
+    checkOutput { ellipsis := true, normWs := true, ignWs := true, normRepr := false, noBlank := false }
+      "\t...a".toList ".\t...".toList = false := by decide +kernel
+
+/-- the unguarded sentence is false of the model (and of the code: the witnesses are replayed on
+    the implementation by every run of the check) -/
+theorem mono_full_false : ¬ mono_full_statement := by
+  intro h
+  have := (h { ellipsis := false, normWs := false, ignWs := false, normRepr := true, noBlank := false }
+    " a".toList "' a'".toList).2.1
+  have w := witness_K_C05_a
+  rw [this w.1] at w
+  exact absurd w.2 (by simp)
+
+/-! ### non-vacuity -/
+example : checkOutput defaultFlags "u'a'  \n".toList "'a'".toList = true := by decide +kernel
+example : checkOutput strictFlags "a \n".toList "a".toList = true := by decide +kernel
+example : checkOutput strictFlags "a b".toList "a  b".toList = false := by decide +kernel
+example : contains dots (norm1 defaultFlags true "a b".toList) = false := by decide +kernel
 
 end Xdoc.C05
